@@ -109,7 +109,12 @@ def s2(ctx):
                 continue
             if isinstance(n.func, ast.Attribute) and n.func.attr in ('encode', 'to_bytes', 'hex'):
                 continue
-            bad.append((n, d or ast.unparse(n.func)))
+            # pure conversions / predicates are fine; what must not enter is anything that differs between
+            # processes, runs or objects
+            unstable = d in HASH_FORBIDDEN or full in HASH_FORBIDDEN or full.split('.')[0] in (
+                'random', 'time', 'uuid', 'secrets', 'os', 'threading', 'socket') or d in ('hash', 'id', 'object', 'vars', 'dir')
+            if unstable:
+                bad.append((n, d or ast.unparse(n.func)))
         if isinstance(n, ast.Name) and n.id in ('hash', 'id') and isinstance(n.ctx, ast.Load):
             bad.append((n, n.id))
     obs = [Ob('S2', 'Disk.hash/pure', not bad and calls > 0,
@@ -296,8 +301,10 @@ def s5(ctx):
     for p in ctx.paths(f, 'plain'):
         for e in p.trace:
             if e.kind == 'NEW' and e.d['name'] == 'Cache':
-                n += 1
                 v = e.d['kwargs'].get('size_limit')
+                if v is None and n > 0:
+                    continue        # a shard created without an explicit limit keeps the stored one (see P6)
+                n += 1
                 ok = v is not None and v.k == 'term' and v.a[0] in ('Div', 'FloorDiv') and \
                     v.a[1][1].k == 'param' and v.a[1][1].a[0] == 'shards'
                 if ok:
